@@ -1,9 +1,11 @@
-use std::io::{BufRead, ErrorKind, Result as IoResult};
+use std::io::{BufRead, Chain, Cursor, ErrorKind, Read, Result as IoResult};
 
 use super::encoding::Encoding;
 
 pub struct Decoder<R> {
-    inner: R,
+    // Bytes read while looking for a BOM that turned out to be content,
+    // followed by the rest of the input.
+    inner: Chain<Cursor<Vec<u8>>, R>,
     read_buf: Vec<u8>,
     // Only used for UTF-16/invalid UTF-8 encoded data
     decode_buf: String,
@@ -12,35 +14,44 @@ pub struct Decoder<R> {
 
 impl<R: BufRead> Decoder<R> {
     pub fn new(mut inner: R) -> IoResult<Self> {
+        let (encoding, head) = Self::read_bom(&mut inner)?;
+
         Ok(Self {
-            encoding: Self::read_bom(&mut inner)?,
+            encoding,
             read_buf: Vec::new(),
             decode_buf: String::new(),
-            inner,
+            inner: Cursor::new(head).chain(inner),
         })
     }
 
-    fn read_bom(reader: &mut R) -> IoResult<Encoding> {
-        let buf = loop {
+    /// Returns the encoding and the bytes that were read past the BOM.
+    fn read_bom(reader: &mut R) -> IoResult<(Encoding, Vec<u8>)> {
+        const MAX_BOM_LEN: usize = 3;
+
+        // The reader may hand out fewer bytes than a BOM at a time so they
+        // are gathered first.
+        let mut head = Vec::with_capacity(MAX_BOM_LEN);
+
+        while head.len() < MAX_BOM_LEN {
             let available = match reader.fill_buf() {
                 Ok(n) => n,
                 Err(ref err) if err.kind() == ErrorKind::Interrupted => continue,
                 Err(err) => return Err(err),
             };
 
-            let len = available.len();
-
-            if len >= 3 || len == 0 {
-                break available;
+            if available.is_empty() {
+                break;
             }
 
+            let len = available.len().min(MAX_BOM_LEN - head.len());
+            head.extend_from_slice(&available[..len]);
             reader.consume(len);
-        };
+        }
 
-        let (encoding, consumed) = Encoding::from_bom(buf);
-        reader.consume(consumed);
+        let (encoding, bom_len) = Encoding::from_bom(&head);
+        head.drain(..bom_len);
 
-        Ok(encoding)
+        Ok((encoding, head))
     }
 
     pub fn read_line(&mut self) -> IoResult<Option<&str>> {
